@@ -2,6 +2,8 @@
 from .absint import (Analyzer, State, Lin, Frame, Infeasible, TOP, B_UNK, V_int, V_const, V_bool, cond_not, join_states,
                      INT_RANGES, parse_ty, _ty_str, MAX_SET, strip_ref, parse_array_ty)
 from .lir import strip_turbofish, strip_generics
+import os
+TRACE = os.environ.get('LRS_TRACE')
 
 CMP = {'Lt', 'Le', 'Gt', 'Ge', 'Eq', 'Ne'}
 
@@ -299,6 +301,9 @@ class Interp(Analyzer):
                     # weak update: forget element knowledge
                     self.write_ptr(base, ('array', arr[1], {}, None) + ((None,) + tuple(arr[5:]) if len(arr) > 4 else ()), frame, st)
                 return
+        if base[0] == 'P':
+            for src in base[2]:
+                self.havoc_slice(('sref', src, None, None), st)
         if pos.is_const():
             st.mem[('el', base, pos.k)] = val
         else:
@@ -306,6 +311,9 @@ class Interp(Analyzer):
 
     def havoc_slice(self, sr, st):
         base = sr[1]
+        if base[0] == 'P':
+            for src in base[2]:
+                self.havoc_slice(('sref', src, None, None), st)
         for k in [k for k in st.mem if k[0] == 'el' and k[1] == base]:
             del st.mem[k]
         if base[0] == 'L':
@@ -710,6 +718,13 @@ class Interp(Analyzer):
                 lo_, hi_ = INT_RANGES[to_ty]
                 if vals and all(lo_ <= x <= hi_ for x in vals):
                     return self._from_set(st, to_ty, vals)
+            a = self.prog.adts.get(strip_generics(from_ty)) if from_ty else None
+            if a is not None and a['kind'] == 'Enum':
+                # unknown value of an enum type: any declared discriminant
+                vals = {x['discr'] for x in a['variants'] if x.get('discr') is not None}
+                lo_, hi_ = INT_RANGES[to_ty]
+                if vals and all(lo_ <= x <= hi_ for x in vals):
+                    return self._from_set(st, to_ty, vals)
             return ('int', self.fresh(st, to_ty))
         lo, hi = INT_RANGES[to_ty]
         l, u = st.lb(lin), st.ub(lin)
@@ -842,6 +857,8 @@ class Interp(Analyzer):
         if s.k == 'assign':
             v = self.eval_rvalue(s.rv, s.lhs.ty, frame, st)
             ptr = self.resolve(s.lhs, frame, st)
+            if TRACE and TRACE in frame.body.path:
+                print('   TRACE %s: %s := %s' % (frame.body.path.split('::')[-1], s.dump() if hasattr(s, 'dump') else s.lhs, str(v)[:300]))
             if ptr[0] == 'T':
                 return
             self.write_ptr(ptr, v, frame, st)
@@ -1114,10 +1131,16 @@ class Interp(Analyzer):
                     if l and len(l) == 1:
                         body = l[0]
                         break
+            if body is None and c.get('trait') == 'core::convert::Into' and len(c.get('ga') or []) == 2:
+                # blanket impl<T, U: From<T>> Into<U> for T: the workspace's From impl is what runs
+                ga_ = [self.subst_ty(g, frame) for g in c['ga']]
+                body = self.resolve_trait_impl('core::convert::From', [ga_[1], ga_[0]], 'from')
+                if body is not None:
+                    c = dict(c, ga=[])
             if body is None and c.get('trait') and c.get('ga'):
                 body = self.resolve_trait_impl(c['trait'], [self.subst_ty(g, frame) for g in c['ga']], c.get('fn', '').split('::')[-1])
             if body is None and c.get('trait') and c['trait'].split('::')[0] in ('lorawan', 'lorawan_device', 'lora_phy', 'lora_modulation') \
-                    and frame.depth < self.max_depth:
+                    and frame.depth < self.max_depth and c['trait'] not in self.boundary_traits:
                 # class-hierarchy resolution: the receiver type is a type parameter; analyse every workspace impl and join
                 cands = self.trait_method_impls(c['trait'], c.get('fn', '').split('::')[-1])
                 cands = [b_ for b_ in cands if not b_.coroutine and frame.chain().count(b_.path) == 0]
@@ -1277,6 +1300,8 @@ class Interp(Analyzer):
                 self.havoc_reachable(f, frame, st, depth + 1, False)
 
     def havoc_target(self, a, frame, st):
+        if TRACE:
+            print('   HAVOC in %s: %s' % (frame.body.path.split('::')[-1] if frame is not None else None, str(a)[:200]))
         if a[0] == 'sref':
             self.havoc_slice(a, st)
         elif a[0] == 'ref':
@@ -1284,15 +1309,46 @@ class Interp(Analyzer):
             if ptr[0] == 'L':
                 fr = self._frame_by_id.get(ptr[1])
                 if not ptr[3]:
-                    st.env.pop((ptr[1], ptr[2]), None)
+                    ty = fr.body.locals[ptr[2]] if fr is not None else None
+                    if ty:
+                        nm = 'f%s_%d~%s' % (ptr[1], ptr[2], self._site)
+                        self.purge_prefix(st, nm)
+                        st.env[(ptr[1], ptr[2])] = self.materialize(ty, nm, st, fr)
+                    else:
+                        st.env.pop((ptr[1], ptr[2]), None)
                 else:
                     self.write_ptr(ptr, TOP, frame, st)
             elif ptr[0] == 'O':
                 if not ptr[2]:
-                    st.mem.pop(('obj', ptr[1]), None)
-                    # forget memoised slice contents hanging off this object
+                    # the object is re-materialised under a name versioned by the havoc site: facts about the old
+                    # contents (same lazily-materialised names) must not carry over
+                    ty = self.objtypes.get(ptr[1])
+                    if ty:
+                        base = ptr[1][:-1] if ptr[1].endswith('*') else ptr[1]
+                        base = base.split('~')[0]
+                        nm = '%s~%s' % (base, self._site)
+                        self.purge_prefix(st, nm)
+                        v = self.materialize(ty, nm, st, None)
+                        if v[0] == 'adt' and len(v) > 4:
+                            pass
+                        st.mem[('obj', ptr[1])] = v
+                    else:
+                        st.mem.pop(('obj', ptr[1]), None)
                 else:
                     self.write_ptr(ptr, TOP, frame, st)
+
+    def purge_prefix(self, st, prefix):
+        """forget every fact about symbols named `prefix...` (a re-used deterministic name)"""
+        def hit(x):
+            return x.startswith(prefix) and (len(x) == len(prefix) or x[len(prefix)] in '.*[')
+        for d in (st.lo, st.hi, st.sets):
+            for k in [k for k in d if hit(k)]:
+                del d[k]
+        st.cons = {c for c in st.cons if not any(hit(x) for x in c.co)}
+        for k in [k for k in st.mem if k[0] == 'el' and k[1][0] == 'O' and hit(k[1][1])]:
+            del st.mem[k]
+        for k in [k for k in st.mem if k[0] == 'obj' and hit(k[1])]:
+            del st.mem[k]
 
     def call_body(self, body, args, frame, st, subst, site=None, keep_frame=False):
         """inline analysis of `body` with abstract arguments; mutates st; returns return value or None (diverges)"""
@@ -1404,6 +1460,7 @@ class Interp(Analyzer):
 
     def run_body(self, frame, st):
         body = frame.body
+        self.fn_contexts[body.path] = self.fn_contexts.get(body.path, 0) + 1
         cfg = self.cfg(body)
         rpo = cfg.rpo()
         order = {b: i for i, b in enumerate(rpo)}
@@ -1589,6 +1646,7 @@ def new_analyzer(prog, **kw):
     an.lossy_casts = {}
     an._trait_cache = {}
     an._leaf = {}
+    an.boundary_traits = set()
     an._const_cache = {}
     an._frame_by_id = {}
     an.construct_checks = {}
